@@ -9,7 +9,9 @@ ID = 'C06'
 # shallower vftable pointer; inherited and own tables at both levels)
 ENGINE_B = {'template': 't_inherit', 'kinds': ['accessor_', 'dispatch_', 'layout_'], 'max_quick': 12, 'max_thorough': 64,
             'fixed': [[8, 1, 1, 1, 0, 0, 1, 0, 0, 0, 0, 0, 1, 0, 0, 0, 1], [8, 1, 1, 1, 1, 0, 1, 0, 0, 0, 0, 0, 1, 0, 0, 0, 1],
-                      [8, 0, 1, 1, 2, 0, 1, 0, 0, 0, 0, 0, 1, 0, 0, 0, 1]]}
+                      [8, 0, 1, 1, 2, 0, 1, 0, 0, 0, 0, 0, 1, 0, 0, 0, 1],
+                      # D repeats A's slots exactly and adds none (its own table type all the same); DD derives from it
+                      [8, 1, 0, 0, 1, 9, 1, 0, 0, 0, 0, 0, 1, 0, 0, 0, 0], [8, 1, 1, 1, 1, 9, 0, 0, 0, 0, 0, 0, 1, 0, 0, 0, 0]]}
 EXPLANATION = ('Template t_inherit (bases A and B each with or without a vftable block, derived D with one or two #[base] fields and no / a '
                'prefix-repeating / a non-repeating vftable block, one of eight single-slot mutations of the repeated prefix — rename, '
                'parameter type, return type, receiver mutability, calling convention, dropped slot, extra parameter, swapped slots — and '
@@ -25,11 +27,11 @@ ASSUMPTIONS = ['the reference model (props/inherit_spec.py) is evaluated in Pyth
 
 
 def bounds(tier):
-    return {'depth': 2, 'bases per type': '<= 2 (statement: up to 3)', 'mutations': 8, 'pointer_size': [4, 8]}
+    return {'depth': 2, 'bases per type': '<= 2 (statement: up to 3)', 'mutations': '8 single-slot mutations + the exact repeat without an own function', 'pointer_size': [4, 8]}
 
 
 def assume(a, ps, sub):
-    A = [a[0] == ps] + [z3.ULE(a[i], 1) for i in (1, 2, 3, 6, 7, 8, 9, 10, 12)] + [z3.ULE(a[4], 2), z3.ULE(a[5], 8), z3.ULE(a[11], 2)]
+    A = [a[0] == ps] + [z3.ULE(a[i], 1) for i in (1, 2, 3, 6, 7, 8, 9, 10, 12)] + [z3.ULE(a[4], 2), z3.ULE(a[5], 9), z3.ULE(a[11], 2)]
     # canonical encodings of irrelevant parameters
     A.append(z3.Implies(a[4] != 1, a[5] == 0))
     A.append(z3.Implies(a[6] == 0, a[7] == 0))
